@@ -1029,8 +1029,24 @@ theorem good_mainLoop (g : Graph) (hwf : noSelfChild g = true) (hso : stdOutputs
       have g4 := good_releaseAndSubmit g _ (good_sweepQueue g _ g2)
       exact good_finishLoop g _ (good_processQueue g hwf hso _ n4 g4).2
 
+/-- the op is not a vacation message found by a poll -/
+def XOp.notVacation : XOp → Bool
+  | .base _ => true
+  | .poll _ _ _ text => !isVacated text
+
+/-- a vacated job goes back to submitted: consistent when it had been submitted -/
+theorem goodT_vacate (g : Graph) (x : Proxy) (h : GoodT g x) (hs : "submitted" ∈ x.done) : GoodT g (vacateProxy x) := by
+  unfold vacateProxy
+  split
+  · exact h
+  · split
+    · exact h
+    · unfold GoodT Good at *
+      simp only [reset_status_some, reset_status_none, reset_done, reset_name]
+      refine ⟨⟨by intro hc; rcases hc with hc | hc | hc <;> exact absurd hc (by decide), fun _ => hs, h.1.2.2⟩, h.2⟩
+
 theorem good_stepX (g : Graph) (hwf : noSelfChild g = true) (hso : stdOutputs g = true) (s : State) (op : XOp)
-    (hnd : NoDup s) (h : GoodState g s) : GoodState g (stepX g s op) := by
+    (hv : op.notVacation = true) (hnd : NoDup s) (h : GoodState g s) : GoodState g (stepX g s op) := by
   have hc : GoodState g (clearOp s) := good_eq g s _ rfl rfl h
   have nc : NoDup (clearOp s) := hnd
   cases op with
@@ -1042,26 +1058,27 @@ theorem good_stepX (g : Graph) (hwf : noSelfChild g = true) (hso : stdOutputs g 
     | subres p n ok sn => exact good_processMessage g hwf hso _ _ _ _ _ _ nc hc
     | msg p n sn text => exact good_eq g (clearOp s) _ rfl rfl hc
   | poll p n sn text =>
-    show GoodState g (if pollMatches s p n sn then (processMessage g 4 (clearOp s) p n .polled sn text).1 else clearOp s)
+    have hv' : isVacated text = false := by simpa [XOp.notVacation] using hv
+    show GoodState g (if pollMatches s p n sn then
+      (if isVacated text then (match (clearOp s).get? p n with
+          | some x => (clearOp s).put (vacateProxy x)
+          | none => clearOp s)
+        else (processMessage g 4 (clearOp s) p n .polled sn text).1) else clearOp s)
+    simp only [hv', Bool.false_eq_true, if_false]
     split
     · exact good_processMessage g hwf hso _ _ _ _ _ _ nc hc
     · exact hc
 
-/-- **every pooled proxy of every state of every run is consistent** — in particular succeeded or failed
-complete ⇒ submitted and started complete -/
-theorem good_runX (g : Graph) (hwf : noSelfChild g = true) (hso : stdOutputs g = true) (ops : List XOp) :
-    ∀ s ∈ runX g ops, NoDup s ∧ GoodState g s :=
-  runX_inv (fun s => NoDup s ∧ GoodState g s) g ⟨nodup_loadFromPoint g, good_loadFromPoint g⟩
-    (fun s op h => ⟨nodup_stepX g s op h.1, good_stepX g hwf hso s op h.1 h.2⟩) ops
+/-- a vacation message for a pooled proxy that has been submitted keeps the state consistent -/
+theorem good_vacation (g : Graph) (s : State) (p : Int) (n : String) (x : Proxy) (h : GoodState g s)
+    (hx : s.get? p n = some x) (hs : "submitted" ∈ x.done) : GoodState g (s.put (vacateProxy x)) :=
+  good_put g s _ (goodT_vacate g x (h.1 x (List.mem_of_find?_eq_some hx)) hs) h
 
-/-- from any consistent state: the pooled proxy of (p, n) after a message is `Msg.step` of the one before -/
-theorem pm_pool (g : Graph) (hwf : noSelfChild g = true) (s : State) (p : Int) (n : String) (x x' : Proxy)
-    (hg : GoodState g s) (h : s.get? p n = some x) (flag : Flag) (sn : Nat) (msg : String)
-    (h' : (processMessage g 4 s p n flag sn msg).1.get? p n = some x') :
-    x' = (Msg.step (g.task? n) 4 ⟨x, false⟩ flag sn msg).1.x := by
-  have hsim : SimP g p n s ⟨x, false⟩ := ⟨wk_of_good g p n s hg, Or.inl ⟨rfl, h⟩⟩
-  obtain ⟨_, hcase⟩ := pm_simP g hwf p n 4 s ⟨x, false⟩ flag sn msg hsim
-  rcases hcase with ⟨_, hget⟩ | habs
-  · rw [h'] at hget; simp only [Option.some.injEq] at hget; exact hget
-  · rw [h'] at habs; simp at habs
+/-- **every pooled proxy of every state of every run is consistent** — in particular succeeded or failed
+complete ⇒ submitted and started complete (op lists without vacation messages) -/
+theorem good_runX (g : Graph) (hwf : noSelfChild g = true) (hso : stdOutputs g = true) (ops : List XOp)
+    (hv : ∀ op ∈ ops, op.notVacation = true) : ∀ s ∈ runX g ops, NoDup s ∧ GoodState g s :=
+  runX_inv_mem (fun s => NoDup s ∧ GoodState g s) g ops ⟨nodup_loadFromPoint g, good_loadFromPoint g⟩
+    (fun s op hm h => ⟨nodup_stepX g s op h.1, good_stepX g hwf hso s op (hv op hm) h.1 h.2⟩)
+
 end CylcModel.Sched
